@@ -812,13 +812,24 @@ func asyncCase(r *R, kind, n, procs int, delayPattern int) *Case {
 	}
 }
 
+// what a JSON text denotes, members sorted (independent decoder); the text itself when it does not decode
+func denoted(s string) string {
+	v, ok := refDecode(s)
+	if !ok {
+		return "undecodable: " + s
+	}
+	return sortV(v).canon()
+}
+
 // concurrent read-only operations on one shared, unmodified container give the sequential results
 func readersCase(r *R, goroutines int) *Case {
 	f := &failer{pred: true}
 	o := defaultOpts()
 	o.Floats = (*R).finiteFloat
 	t := r.listTree(o)
-	t.L = append(t.L, vint(1), vstr("x"), vlist(vint(2)), vobj(KV{"a", vint(3)}))
+	t.L = append(t.L, vint(1), vstr("x"), vlist(vint(2)), vobj(KV{"a", vint(3)}),
+		// control characters without a short escape, different ones, in values and keys: serialising them concurrently must not interfere
+		vstr("\x01\x02\x1f"), vstr("\x07\x0b"), vobj(KV{"k\x03", vstr("\x04\x05\x06")}, KV{"\x0e", vlist(vstr("\x0f\x10\x11"))}), vfloat(1e21), vfloat(-0.000001))
 	l := t.toList()
 	holder := at.NewObject("l", l, "n", 1)
 	type op struct {
@@ -826,7 +837,12 @@ func readersCase(r *R, goroutines int) *Case {
 		f    func() string
 	}
 	ops := []op{
-		{"String", func() string { return canon(l) }},
+		{"walk", func() string { return canon(l) }},
+		// (the text itself varies with the map iteration order of nested objects: what it denotes, with members sorted, does not)
+		{"String", func() string { return denoted(l.String()) }},
+		{"holder.String", func() string { return denoted(holder.String()) }},
+		{"Clone.String", func() string { return denoted(l.Clone().String()) }},
+		{"FormatString(3)", func() string { return denoted(l.FormatString(3)) }},
 		{"Clone", func() string { return canon(l.Clone()) }},
 		{"Equals", func() string { return fmt.Sprint(l.Equals(l)) }},
 		{"SubList", func() string { return canon(l.SubList(0, l.Count())) }},
@@ -850,7 +866,7 @@ func readersCase(r *R, goroutines int) *Case {
 		wg.Add(1)
 		go func(g int) {
 			defer wg.Done()
-			for k := 0; k < 6; k++ {
+			for k := 0; k < 10; k++ {
 				i := (g + k) % len(ops)
 				defer func() {
 					if rec := recover(); rec != nil {
